@@ -177,6 +177,13 @@ func subPartition(p *partitions, group int) {
 				move.Add(s)
 				return
 			}
+			// An accepting state that is also non-greedy ends the token without
+			// looking at the next character; one that is not goes on. They are
+			// not the same state even if everything else about them is equal.
+			if first.NonGreedy != s.NonGreedy {
+				move.Add(s)
+				return
+			}
 		}
 	})
 	move.ForEach(func(s *State) {
